@@ -4,6 +4,11 @@ use std::fmt::Debug;
 use std::io::Write;
 use std::{io, thread};
 
+/// Verification hook state: number of workers that reached the shutdown rendezvous.
+#[cfg(feature = "verif-hooks")]
+pub(crate) static VERIF_AT_SHUTDOWN_RECV: std::sync::atomic::AtomicUsize =
+    std::sync::atomic::AtomicUsize::new(0);
+
 pub(crate) struct Worker<T: Write + Send + 'static> {
     writer: T,
     receiver: Receiver<Msg>,
@@ -55,9 +60,13 @@ impl<T: Write + Send + 'static> Worker<T> {
     /// it can off the channel, buffers them and attempts a flush.
     pub(crate) fn work(&mut self) -> io::Result<WorkerState> {
         // Worker thread yields here if receive buffer is empty
+        #[cfg(feature = "verif-hooks")]
+        tracing_subscriber::__verif::wait_until("appender.worker.recv", &|| !self.receiver.is_empty());
         let mut worker_state = self.handle_recv(&self.receiver.recv())?;
 
         while worker_state == WorkerState::Continue {
+            #[cfg(feature = "verif-hooks")]
+            tracing_subscriber::__verif::point("appender.worker.try_recv");
             let try_recv_result = self.receiver.try_recv();
             let handle_result = self.handle_try_recv(&try_recv_result);
             worker_state = handle_result?;
@@ -68,14 +77,25 @@ impl<T: Write + Send + 'static> Worker<T> {
 
     /// Creates a worker thread that processes a channel until it's disconnected
     pub(crate) fn worker_thread(mut self, name: String) -> std::thread::JoinHandle<()> {
+        #[cfg(feature = "verif-hooks")]
+        let __verif_ticket = tracing_subscriber::__verif::pre_spawn();
         thread::Builder::new()
             .name(name)
             .spawn(move || {
+                #[cfg(feature = "verif-hooks")]
+                tracing_subscriber::__verif::thread_begin(__verif_ticket);
                 loop {
                     match self.work() {
                         Ok(WorkerState::Continue) | Ok(WorkerState::Empty) => {}
                         Ok(WorkerState::Shutdown) | Ok(WorkerState::Disconnected) => {
                             drop(self.writer); // drop now in case it blocks
+                            // The shutdown rendezvous needs both threads inside the real
+                            // channel at once: the worker leaves the scheduler first.
+                            #[cfg(feature = "verif-hooks")]
+                            {
+                                VERIF_AT_SHUTDOWN_RECV.fetch_add(1, std::sync::atomic::Ordering::SeqCst);
+                                tracing_subscriber::__verif::thread_end();
+                            }
                             let _ = self.shutdown.recv();
                             return;
                         }
